@@ -61,6 +61,7 @@ def v_ladder(ctx, tname, adtp, maxn):
         inner = strip(e_["args"][0])
         return inner["k"] == "Call" and k < len(NAMES) and hir.callee_name(inner) == NAMES[k] and [field_path(a) for a in inner["args"]] == [(x,) for x in bound]
 
+    extra = []
     steps = []          # (validated?, absence returns the right constructor?)
     bound = []
     temps = {}
@@ -72,7 +73,12 @@ def v_ladder(ctx, tname, adtp, maxn):
         tail = block.get("expr") if block["k"] == "Block" else block
         raw_pending = None
         for s_ in stmts:
+            if s_["k"] == "Item":
+                continue
             if s_["k"] != "Let":
+                # the ladder consists of its steps and nothing else: any other statement (seed c13-j: an `if let (0, _) = it.size_hint() {
+                # return Ok(new_empty()) }` fast path in front of it) can return without reading / validating the items
+                extra.append(s_.get("line"))
                 continue
             init = strip(s_["init"]) if s_.get("init") else None
             if init is not None and init["k"] == "Match" and next_call(init["scrut"]):
@@ -129,6 +135,7 @@ def v_ladder(ctx, tname, adtp, maxn):
         t2 = hir.through_lets(tail, temps)
         ok = ok_ctor(t2, maxn, bound)
     ctx.ob("V-CTOR", "%s::try_from_floats full arity" % tname, ok, "")
+    ctx.ob("V-CTOR", "%s::try_from_floats consists of the ladder only" % tname, not extra, "other statements at line(s) %s" % extra)
 
 
 def run(ctx):
